@@ -327,3 +327,77 @@ class Sim:
         systems = list(class_obj_dict.get("System", {}).values())
         new.system = systems[0] if systems else None
         return saved, new
+
+    # -- schedule / read-side requests (C18): never change the spec --------------------------------
+    def op_recompute(self, op):
+        """Explicit recomputation requests in the recorded order ("sys!" = system.after_init())."""
+        for t in op["targets"]:
+            if t == "sys!":
+                self.world.system.after_init()
+            else:
+                self.obj(t).compute_calculated_attributes()
+
+    def op_read(self, op):
+        """Read-side traffic: explaining, printing, exporting, plotting."""
+        import os
+        import tempfile
+        kind = op["kind"]
+        system = self.world.system
+        targets = [self.obj(t) for t in op.get("targets", [])]
+        tmp = os.path.join(tempfile.gettempdir(), f"efsim-{os.getpid()}")
+        os.makedirs(tmp, exist_ok=True)
+        if kind == "explain":
+            for o in targets:
+                for attr in o.calculated_attributes:
+                    v = getattr(o, attr)
+                    for e in (v.values() if isinstance(v, dict) else [v]):
+                        e.explain()
+                        e.explain(pretty_print=False)
+        elif kind == "str":
+            for o in targets:
+                str(o)
+                repr(o)
+        elif kind == "to_json":
+            from efootprint.api_utils.system_to_json import system_to_json
+            system_to_json(system, save_calculated_attributes=bool(op.get("with_calc", True)))
+            for o in targets:
+                o.to_json(True)
+        elif kind == "sums":
+            system.total_energy_footprint_sum_over_period
+            system.total_fabrication_footprint_sum_over_period
+            system.energy_footprint_sum_over_period
+            system.fabrication_footprint_sum_over_period
+            system.total_energy_footprints
+            system.total_fabrication_footprints
+            system.energy_footprints
+            system.fabrication_footprints
+        elif kind == "plot_system":
+            system.plot_footprints_by_category_and_object(return_only_html=True)
+        elif kind == "plot_diffs":
+            import matplotlib.pyplot as plt
+            if system.previous_change is not None:
+                system.plot_emission_diffs(filepath=os.path.join(tmp, "diffs.png"))
+                plt.close("all")
+        elif kind == "plot_values":
+            import matplotlib.pyplot as plt
+            from efootprint.abstract_modeling_classes.explainable_objects import ExplainableHourlyQuantities
+            for o in targets:
+                for attr in o.calculated_attributes:
+                    v = getattr(o, attr)
+                    if isinstance(v, ExplainableHourlyQuantities):
+                        # (filepath=None: with a file path the library raises NameError 'plt' before doing anything)
+                        v.plot(filepath=None, plt_show=False, cumsum=bool(op.get("cumsum")))
+                        plt.close("all")
+                        break
+        elif kind == "calculus_graph":
+            for o in targets:
+                for attr in o.calculated_attributes[-1:]:
+                    v = getattr(o, attr)
+                    if not isinstance(v, dict) and v.label:
+                        v.calculus_graph_to_file(filename=os.path.join(tmp, "calc.html"))
+        elif kind == "object_graph":
+            system.object_relationship_graph_to_file(filename=os.path.join(tmp, "obj.html"))
+            for o in targets[:1]:
+                o.object_relationship_graph_to_file(filename=os.path.join(tmp, "obj2.html"), classes_to_ignore=[])
+        else:
+            raise AssertionError(kind)
